@@ -621,5 +621,118 @@ def rule_surv(ctx):
                         "or in the output", lambda i: C.HYPERGRAPH in i.construct, 2)
 
 
-RULES = [rule_cap, rule_sizewrites, rule_own, rule_siblings, rule_samecap, rule_topo, rule_range, rule_steps, rule_surv,
+def rule_ledger(ctx):
+    """'With nothing truncated the compressed estimates equal the exact figures' rests on the tracker being a
+    plain ledger of the simulated steps.  Each of its update methods is straight-line arithmetic on its slots;
+    evaluated symbolically (sa/engine/symbolic.py, slots and hypergraph queries as symbols):
+      pre_step       size_change = flops_change = 0
+      pre_contract   size_change -= size(i) + size(j);  flops_change += pair cost
+      post_contract  contracted = size(ij); size_change += contracted; total_post_contract = total + size_change
+      pre/post_compress  size_change -= N, then += N (same neighbourhood query): net zero when nothing changed;
+                     flops_change += compress cost (zero when nothing exceeds the cap, [C20-SIBLING])
+      post_step      flops += flops_change; write += contracted; total += size_change;
+                     max_size = max(max_size, contracted); peak = max(peak, total_post_contract)
+      update_score   the same four figures, started from the *other* tracker (sibling of post_step)."""
+    from ..engine.symbolic import Interp, Poly
+
+    r = RuleResult("C20-LEDGER", "the compressed tracker is a ledger of the simulated steps", 6)
+    tr = ctx.p.cls(C.SCORING, "CompressedStatsTracker")
+    C.require(tr is not None, "CompressedStatsTracker not found")
+    slots = ["flops", "max_size", "peak_size", "write", "total_size", "total_size_post_contract", "contracted_size",
+             "size_change", "flops_change"]
+    S = {a: Poly.sym(a) for a in slots}
+
+    def run(name):
+        f = tr.methods.get(name)
+        C.require(f is not None, f"CompressedStatsTracker.{name} not found")
+        params = [a.arg for a in f.node.args.args]
+        env = {f"self.{a}": S[a] for a in slots}
+        env.update({f"other.{a}": Poly.sym("o_" + a) for a in slots})
+        it = Interp(env=env)
+        it.track_attrs = True
+        hgq = {}
+
+        # hypergraph queries become symbols keyed by (method, arguments)
+        class Q(ast.NodeVisitor):
+            def visit_Call(self, n):
+                if isinstance(n.func, ast.Attribute) and isinstance(n.func.value, ast.Name) and n.func.value.id == "hg":
+                    txt = " ".join(ast.unparse(n).split())
+                    hgq[txt] = Poly.sym(f"{n.func.attr}({', '.join(ast.unparse(a) for a in n.args)})")
+                self.generic_visit(n)
+        Q().visit(f.node)
+        it.env0.update(hgq)
+        effects = it.run(f.node.body)
+        final = {}
+        for e in effects:
+            if e.kind in ("store", "aug") and e.target.startswith("self."):
+                a = e.target[5:]
+                if e.conds:
+                    final[a] = "conditional"
+                    continue
+                if e.kind == "store":
+                    final[a] = e.value
+                else:
+                    cur = final.get(a, S.get(a))
+                    d_ = e.delta
+                    final[a] = (cur + d_) if (isinstance(cur, Poly) and d_ is not None) else None
+        return f, final
+
+    def expect(name, want, why):
+        f, got = run(name)
+        if callable(want):
+            want = want([a.arg for a in f.node.args.args][2:], f.node.args.vararg.arg if f.node.args.vararg else None)
+        k = ctx.key(f, "C20-LEDGER")
+        probs = []
+        for a, w in want.items():
+            g = got.get(a, S[a])
+            if g != w:
+                probs.append(f"`{a}` becomes {g}, expected {w}")
+        extra = [a for a in got if a not in want and got[a] != S.get(a)]
+        if extra:
+            probs.append(f"also changes {sorted(extra)}")
+        if probs:
+            r.violation(k, f.loc, f"{name}: " + "; ".join(probs) + f" — {why}")
+        else:
+            r.ok(k, f.loc, f"{name}: " + ", ".join(f"{a} -> {w}" for a, w in want.items()))
+
+    Z = Poly.const(0)
+    expect("update_pre_step", {"size_change": Z, "flops_change": Z},
+           "a step must start from zero changes, otherwise the previous step is counted again")
+    expect("update_pre_contract", lambda ps, va: {
+        "size_change": S["size_change"] - Poly.sym(f"node_size({ps[0]})") - Poly.sym(f"node_size({ps[1]})"),
+        "flops_change": S["flops_change"] + Poly.sym(f"contract_pair_cost({ps[0]}, {ps[1]})")},
+        "the two operands leave the total and the contraction's cost is charged once")
+    expect("update_post_contract", lambda ps, va: {
+        "contracted_size": Poly.sym(f"node_size({ps[0]})"), "size_change": S["size_change"] + Poly.sym(f"node_size({ps[0]})"),
+        "total_size_post_contract": S["total_size"] + S["size_change"] + Poly.sym(f"node_size({ps[0]})")},
+        "the new tensor enters the total; the peak candidate is the total right after the contraction")
+    expect("update_pre_compress", lambda ps, va: {
+        "size_change": S["size_change"] - Poly.sym(f"neighborhood_size({va})"),
+        "flops_change": S["flops_change"] + Poly.sym(f"neighborhood_compress_cost(self.chi, {va})")},
+        "the neighbourhood is struck off before it is compressed and re-entered after")
+    expect("update_post_compress", lambda ps, va: {"size_change": S["size_change"] + Poly.sym(f"neighborhood_size({va})")},
+           "the neighbourhood re-enters with the same query it was struck off with (net zero when nothing is truncated)")
+    mx = lambda a, b: Poly.sym("max(" + ", ".join(sorted([repr(a), repr(b)])) + ")")  # noqa: E731
+    expect("update_post_step", {"max_size": mx(S["max_size"], S["contracted_size"]),
+                                "peak_size": mx(S["peak_size"], S["total_size_post_contract"]),
+                                "total_size": S["total_size"] + S["size_change"],
+                                "flops": S["flops"] + S["flops_change"],
+                                "write": S["write"] + S["contracted_size"]},
+           "totals advance by exactly this step's changes")
+    O = {a: Poly.sym("o_" + a) for a in slots}
+    f, got = run("update_score")
+    k = ctx.key(f, "C20-LEDGER")
+    want = {"flops": O["flops"] + S["flops_change"], "write": O["write"] + S["contracted_size"],
+            "max_size": mx(O["max_size"], S["contracted_size"]),
+            "peak_size": mx(O["peak_size"], S["total_size_post_contract"])}
+    probs = [f"`{a}` becomes {got.get(a)}, expected {w}" for a, w in want.items() if got.get(a) != w]
+    if probs:
+        r.violation(k, f.loc, "update_score: " + "; ".join(probs) + " — scoring a candidate step from another tracker must "
+                    "give the figures update_post_step would give (sibling)")
+    else:
+        r.ok(k, f.loc, "update_score: same four figures as update_post_step, started from the other tracker")
+    return r
+
+
+RULES = [rule_ledger, rule_cap, rule_sizewrites, rule_own, rule_siblings, rule_samecap, rule_topo, rule_range, rule_steps, rule_surv,
          rule_freshstats, rule_reset]
